@@ -1,5 +1,5 @@
 """A process environment that differs from the defaults: settings a user's session may have changed and that must not leak into
-files, results or objectives (numpy print options, pandas display options).  Used by the persistence checks for a deterministic
+files, results or objectives (numpy print options, pandas display options, pandas copy-on-write mode).  Used by the persistence checks for a deterministic
 third of their cases."""
 
 from __future__ import annotations
@@ -22,6 +22,6 @@ def hostile_environment(active: bool = True):
     import pandas as pd
 
     with np.printoptions(precision=2, threshold=3, edgeitems=1, suppress=True, linewidth=40), pd.option_context(
-        "display.precision", 2, "display.max_rows", 2, "display.max_columns", 2, "display.max_colwidth", 8, "display.float_format", "{:.1f}".format
+        "display.precision", 2, "display.max_rows", 2, "display.max_columns", 2, "display.max_colwidth", 8, "display.float_format", "{:.1f}".format, "mode.copy_on_write", True
     ):
         yield True
